@@ -7,7 +7,7 @@ from .c08_c09_util import coq_eval_parts, coq_eval_sharded
 LEVEL = "proof"
 META = {
     "category": "proof",
-    "text": "Coq theorems over a state-passing model of the resolver (context counters, option gating, parameter-list and argument-list scans, load rules, assignment targets, scoping with the block table and lookupLexical's memoisation) against a declarative specification of the static rules: for ALL programs of the modelled syntax and ALL 2^6 option vectors a (rule, position) is reported iff the specification says the rule is violated there, for the 30 rules that need no name resolution beyond the parameter list itself (break/continue/return/load placement, if/for/while at top level, while, assignment targets, order and duplicates of arguments, the 255 limits, order and duplicates of parameters, bare *); while and top-level if/for/while are rejected exactly when While resp. TopLevelControl is off and no other option influences these rules; an option that is ON never causes a rejection (all six options, including Set and GlobalReassign); duplicate parameters are reported exactly as specified for every parameter list; a rejected program performs no effect in the pipeline model; and, over a model of Call/CallInternal's stack scan: with recursion off the active function frames have pairwise distinct code identities under ALL call sequences (direct, mutual, through built-in frames, through different closures of one definition) and a re-entering call fails. Tied to /repo on every run: generated programs with one of 73 planted constructs x option vectors through the real parse/resolve/compile/run pipeline with logging built-ins; the real syntax tree is translated into the model's syntax and the model's error list compared with the resolver's (exact list, vm_compute), the specification (incl. an executable scoping oracle) with the reported errors; call graphs reaching an active function with recursion off and on.",
+    "text": "Coq theorems over a state-passing model of the resolver (context counters, option gating, parameter-list and argument-list scans, load rules, assignment targets, scoping with the block table and lookupLexical's memoisation) against a declarative specification of the static rules: for ALL programs of the modelled syntax and ALL 2^6 option vectors a (rule, position) is reported iff the specification says the rule is violated there, for the 30 rules that need no name resolution beyond the parameter list itself (break/continue/return/load placement, if/for/while at top level, while, assignment targets, order and duplicates of arguments, the 255 limits, order and duplicates of parameters, bare *); while and top-level if/for/while are rejected exactly when While resp. TopLevelControl is off and no other option influences these rules; an option that is ON never causes a rejection (all six options, including Set and GlobalReassign); duplicate parameters are reported exactly as specified for every parameter list; a rejected program performs no effect in the pipeline model; and, over a model of Call/CallInternal's stack scan: with recursion off the active function frames have pairwise distinct code identities under ALL call sequences (direct, mutual, through built-in frames, through different closures of one definition) and a re-entering call fails. Tied to /repo on every run: generated programs with one of 125 planted constructs x option vectors through the real parse/resolve/compile/run pipeline with logging built-ins; the real syntax tree is translated into the model's syntax and the model's error list compared with the resolver's (exact list, vm_compute), the specification (incl. an executable scoping oracle) with the reported errors; call graphs reaching an active function with recursion off and on.",
     "note": "resolver_sound_complete is proved as _partial: the equivalence for the scoping rules (undefined name, set, top-level rebinding, load rebinding) is not proved against a declarative specification -- they are modelled executable (block table, memoisation), tied by exact correspondence on every run and checked against Spec.scope_viol as an oracle; accepted -> no violation is proved, the converse only for the proved rules. Trusted: Coq kernel + vm_compute; the harness and its translation of syntax.File into the model's syntax; rule classes are read from resolver messages by substring; the function-depth counter of the model stands for container().function != nil.",
     "technique": "Coq proof over executable model + differential correspondence on real syntax trees (vm_compute) + independent expectation oracle in the harness",
 }
@@ -152,7 +152,7 @@ def optstr(b):
 def run_resolve(ctx):
     hx = ctx.go_build("c09")
     quick = ctx.quick()
-    cmd = [hx, "resolve", "-seed", str(ctx.seed), "-n", "680" if quick else "5000",
+    cmd = [hx, "resolve", "-seed", str(ctx.seed), "-n", "960" if quick else "5000",
            "-vectors", "8" if quick else "64", "-coq", "30" if quick else "320"]
     rows = ctx.jsonl(cmd, timeout=1500)
     world = [r for r in rows if r.get("kind") == "world"][0]
@@ -169,6 +169,8 @@ def run_resolve(ctx):
             cls = "accepted" if "accepted, but" in pb else "rejected-valid" if "breaks no rule" in pb else "effects" if "effects" in pb and "rejected program" in pb else "panic" if "panic" in pb else "wrong-error"
             if "legacy ExecFile" in pb:
                 cls += ":legacy-entry-point"
+            if pb.startswith("loader entry point"):
+                cls = "loader-entry-point:" + ("accepted" if "module accepted" in pb else "rejected")
             ctx.finding("resolve:%s:%s:%s" % (p["plant"], p["where"] or "expr", cls),
                         "planted %s (%s) at %s; %s\n%s" % (p["plant"], p["where"] or "expression", p["marker"], pb, p["src"]), p)
             break
@@ -202,7 +204,7 @@ def resolve_finish(ctx, summary, terms, refs, bad_model, bad_spec):
     return {
         "evaluations": summary["runs"], "distinct_nontrivial": summary["runs"],
         "programs": summary["programs"], "option_vectors": summary["vectors"], "plants": summary["plants"],
-        "rule": "programs from a grammar (defs with all parameter kinds, nested defs, lambdas with defaults, comprehensions with several clauses, if/for/break/continue, calls with positional/named/*/** arguments, loads) valid under every option vector; in 7 of 8 programs one construct is planted (73 kinds: every rule of the resolver, at top level / in a function / in a loop / in an if / in a nested def / in a def inside a loop, or wrapped in random expression contexts), plus 7 context-sensitive constructs (load, break, continue, return, if, for, while) x 30 branch positions (if-true, elif, final else after one or two elifs, for body, while body, nestings of these, after a compound statement; at top level and in a function) with the exact expected error list, x option vectors (quick: all-off, all-on and 6 seeded; thorough: all 64), and x all 16 combinations of the legacy flags resolve.AllowSet/AllowGlobalReassign/AllowRecursion/LoadBindsGlobally through the legacy entry point starlark.ExecFile, compared with the rules under the documented mapping of LegacyFileOptions. Each run goes through the real ExecFileOptions pipeline with logging built-ins and a logging loader.",
+        "rule": "programs from a grammar (defs with all parameter kinds, nested defs, lambdas with defaults, comprehensions with several clauses, if/for/break/continue, calls with positional/named/*/** arguments, loads) valid under every option vector; in 7 of 8 programs one construct is planted (125 kinds: every rule of the resolver, at top level / in a function / in a loop / in an if / in a nested def / in a def inside a loop, or wrapped in random expression contexts), plus 7 context-sensitive constructs (load, break, continue, return, if, for, while) x 30 branch positions (if-true, elif, final else after one or two elifs, for body, while body, nestings of these, after a compound statement; at top level and in a function) with the exact expected error list, x option vectors (quick: all-off, all-on and 6 seeded; thorough: all 64), and x all 16 combinations of the legacy flags resolve.AllowSet/AllowGlobalReassign/AllowRecursion/LoadBindsGlobally through the legacy entry point starlark.ExecFile, compared with the rules under the documented mapping of LegacyFileOptions; and as a module reached through load() via the loader of repl.MakeLoadOptions(opts) with the legacy flags set to the complement of opts (must behave as under ExecFileOptions(opts)). The misplaced positional argument of the argument-order plants ranges over 18 expression forms (literal, identifier, unary -, +, ~, not, parenthesised, binary, list, dict, call, lambda, conditional, comprehension, index, attribute, tuple, string). Each run goes through the real ExecFileOptions pipeline with logging built-ins and a logging loader.",
         "distribution": summary["dist"], "coq_programs": len(terms),
         "model_mismatches": len(bad_model), "spec_mismatches": len(bad_spec),
         "expectation_mismatches": summary["problem_programs"],
@@ -266,6 +268,8 @@ def run_rec(ctx):
         if c.get("problem"):
             kind = "reentered" if c["obs"].startswith("ok") and not c["rec"] else "spurious-failure" if c["expect"].startswith("ok") else "wrong-function"
             edges = "closure-pair" if any(n.startswith("k0") for n in c["chain"]) else "plain"
+            if c.get("nolocals"):
+                edges += ":functions-without-parameters-or-locals"
             ctx.finding("recursion:%s:%s:%s:%s" % ("on" if c["rec"] else "off", c.get("entry", "file"), kind, edges),
                         "call chain %s with Recursion=%s, entered from %s: %s\n%s" % (" -> ".join(c["chain"]), c["rec"], "the host (starlark.Call on an idle thread)" if c.get("entry") == "go" else "the legacy entry point starlark.ExecFile with resolve.AllowRecursion set accordingly" if c.get("entry") == "legacy" else "the module top level", c["problem"], c["src"]), c)
         if c["obs"].startswith("other:"):
@@ -302,7 +306,7 @@ def rec_finish(ctx, summary, terms, refs, bad_model, bad_spec):
     return {"recursion_graphs": summary["graphs"], "recursion_runs": summary["runs"], "recursion_distribution": summary["dist"],
             "recursion_coq_runs": len(terms), "recursion_model_mismatches": len(bad_model),
             "recursion_spec_mismatches": len(bad_spec), "recursion_rule_mismatches": summary["problems"],
-            "recursion_rule": "call chains of length <= 6 over <= 4 callables drawn from 4 plain functions and two closures of one definition; each definition calls the next callable directly, through a lambda, or through the key callback of sorted/min/max (seeded per definition); one third of the chains are made acyclic; every chain is run twice in sequence, with Recursion off and on, entered both from the module's top level and by the host with starlark.Call on an idle thread (no <toplevel> frame below) and through starlark.ExecFile with resolve.AllowRecursion"}
+            "recursion_rule": "call chains of length <= 6 over <= 4 callables drawn from 4 plain functions and two closures of one definition, in two styles (functions taking the rest of the chain as a parameter; functions with NO parameters and NO local variables that read the chain from a host list); each definition calls the next callable directly, through a lambda, or through the key callback of sorted/min/max (seeded per definition); one third of the chains are made acyclic; every chain is run twice in sequence, with Recursion off and on, entered both from the module's top level and by the host with starlark.Call on an idle thread (no <toplevel> frame below) and through starlark.ExecFile with resolve.AllowRecursion"}
 
 
 def run(ctx):
